@@ -302,7 +302,7 @@ func init() {
 			{World: "gw", Profile: "c03p-preempt-faults", Quick: 150, Thor: 8000, PerProc: 1},
 			{World: "ilv", Profile: "c03i-match", Quick: 6000, Thor: 300000, PerProc: 500, FaultFree: true},
 		},
-		Rule:     "each run = one cluster with 1-4 endpoints and two verb-distinguished policies with drawn subsets; 15-70 drawn steps of: client request (held at the stub or not), release of a held request (possibly reset/5xx/truncated), spec update (disable/enable, remove/add server, change a subset), health/connectivity change of a stub (500, hang, reset, refused), clock advance (0.2-11 s); distinct = distinct trace hash; non-trivial = at least one request forwarded AND at least one spec or health change. Profile c03p-preempt*: the same histories with preemption fuzzing (the gateway's own goroutines give up the processor at one in three statements of upstream_controller.go and clusterinfo.go; a PRNG of the run decides). In every spec update of these profiles 0-2 requests are sent at the same instant as the update (nothing settles in between); such a request may see each attribute of an endpoint in its old or its new value. Spec updates also reorder the two policies and put a third policy in front of them. Profile c03i-match (ilv world, cooperative scheduler over the yield-instrumented clusterinfo.go): 1-3 request threads doing MatchAttributes + Pop (2-8 picks each) against one thread applying 1-5 spec versions through ClusterInfo.Sync (servers disabled/enabled, policies rotated, a policy put in front or removed, subsets changed; all endpoints healthy) under a drawn statement-level schedule with a drawn pace and an optional stall of the applying thread; a pick must be explained by the spec versions in force at some moment of the call",
+		Rule:     "each run = one cluster with 1-4 endpoints and two verb-distinguished policies with drawn subsets; 15-70 drawn steps of: client request (held at the stub or not), release of a held request (possibly reset/5xx/truncated), spec update (disable/enable, remove/add server, change a subset), health/connectivity change of a stub (500, hang, reset, refused), clock advance (0.2-11 s); distinct = distinct trace hash; non-trivial = at least one request forwarded AND at least one spec or health change. Profile c03p-preempt*: the same histories with preemption fuzzing (the gateway's own goroutines give up the processor at one in three statements of upstream_controller.go and clusterinfo.go; a PRNG of the run decides). In every spec update of these profiles 0-2 requests are sent at the same instant as the update (nothing settles in between); such a request may see each attribute of an endpoint in its old or its new value. Spec updates also reorder the two policies and put a third policy in front of them. Profile c03i-match (ilv world, cooperative scheduler over the yield-instrumented clusterinfo.go): 1-3 request threads doing MatchAttributes + Pop (2-8 picks each) against one thread applying 1-5 spec versions through ClusterInfo.Sync (servers disabled/enabled, policies rotated, a policy put in front or removed, subsets changed; all endpoints healthy) under a drawn statement-level schedule with a drawn pace and an optional stall of the applying thread; a pick must be explained by the spec versions in force at some moment of the call One run in three writes the cluster's first two versions back to back (the second one disables a server)",
 		NeedInst: []string{"pkg/clusters/clusterinfo.go"},
 		Real:     gwReal, Stub: gwStub, Assume: gwAssume,
 	})
@@ -323,7 +323,7 @@ func init() {
 			{World: "gw", Profile: "c02-nofault", Quick: 150, Thor: 8000, PerProc: 1, FaultFree: true},
 			{World: "gw", Profile: "c02-faults", Quick: 50, Thor: 3000, PerProc: 1},
 		},
-		Rule: "each run = 1-2 clusters with drawn token tables (names/groups/extra keys with odd bytes) and a drawn impersonation SAR policy (allow/deny/no-opinion per user, group, extra value, service account; fault profile: SAR backend errors), 8-28 raw requests with drawn combinations and casings of Authorization (valid, invalid, absent, duplicated), Impersonate-User (plain, service account, anonymous, empty), 0-3 Impersonate-Group, Impersonate-Extra-<escaped keys>, and other Impersonate-* members; the oracle compares what each stub upstream received with a reference computed from the property text; distinct = distinct trace hash; non-trivial = at least one request forwarded and one refused by the gateway",
+		Rule: "each run = 1-2 clusters with drawn token tables (names/groups/extra keys with odd bytes) and a drawn impersonation SAR policy (allow/deny/no-opinion per user, group, extra value, service account; fault profile: SAR backend errors), 8-28 raw requests with drawn combinations and casings of Authorization (valid, invalid, absent, duplicated), Impersonate-User (plain, service account, anonymous, empty), 0-3 Impersonate-Group, Impersonate-Extra-<escaped keys>, and other Impersonate-* members; the oracle compares what each stub upstream received with a reference computed from the property text; distinct = distinct trace hash; non-trivial = at least one request forwarded and one refused by the gateway Impersonated extras take their values from a pool of three, 1-3 extras per request: the same value can be allowed under one key and refused under another",
 		Real: gwReal, Stub: gwStub, Assume: append([]string{"the authenticated identity includes system:authenticated as added by the gateway's authenticator chain; extra keys are compared lower-cased and unescaped (kube impersonation convention)", "websocket bearer sub-protocol and upgrade requests are not simulated"}, gwAssume...),
 	})
 	reg(&Check{
@@ -433,9 +433,9 @@ func init() {
 		ID:    "C18",
 		Title: "Quota of dead gateway instances is reclaimed; live instances are left alone",
 		Batches: []Batch{
-			{World: "rl", Profile: "c18-lifecycle", Quick: 200, Thor: 10000, PerProc: 1},
+			{World: "rl", Profile: "c18-lifecycle", Quick: 300, Thor: 10000, PerProc: 1},
 		},
-		Rule: "each run = 1-2 replicas (store local / API-backed write-through / periodic), one upstream with an allocate and a count schema, 2-4+ instances with real client sets (heartbeats every second); 25-90 steps of allocate reports, acquire reports, clock advances (1-36 s), instances dying or being cut off, coming back with the old identity or joining anew, a replica cut off from the API server; at every boundary: an instance silent for > 36 s under a stable leader has no condition on record, an instance whose heartbeats arrive at the stable leader with gaps < 3 s keeps its condition; at the end a survivor must be granted the in-flight capacity not held by live instances; distinct = distinct trace hash; non-trivial = both clauses were evaluated. Instance names follow a drawn --client-id-prefix style (plain; with the in-memory store also host:port or longer than 63 characters). One joining instance in three sends its first acquire 50-1200 ms after its start, i.e. possibly before its first heartbeat, and may die at once One run in two the instances keep a client for the upstream's leader like the gateway's reconcile loop (every 2 s). Every delete the simulated API applies is logged with how long the deleting replica had led: a replica that has led for less than 2.5 s may not delete the condition of an instance that is alive and whose last heartbeat arrived (anywhere) less than 2.9 s before. With the API-backed store the API object of a condition is sometimes deleted out of band",
+		Rule: "each run = 1-2 replicas (store local / API-backed write-through / periodic), one upstream with an allocate and a count schema, 2-4+ instances with real client sets (heartbeats every second); 25-90 steps of allocate reports, acquire reports, clock advances (1-36 s), instances dying or being cut off, coming back with the old identity or joining anew, a replica cut off from the API server; at every boundary: an instance silent for > 36 s under a stable leader has no condition on record, an instance whose heartbeats arrive at the stable leader with gaps < 3 s keeps its condition; at the end a survivor must be granted the in-flight capacity not held by live instances; distinct = distinct trace hash; non-trivial = both clauses were evaluated. Instance names follow a drawn --client-id-prefix style (plain; with the in-memory store also host:port or longer than 63 characters). One joining instance in three sends its first acquire 50-1200 ms after its start, i.e. possibly before its first heartbeat, and may die at once One run in two the instances keep a client for the upstream's leader like the gateway's reconcile loop (every 2 s). Every delete the simulated API applies is logged with how long the deleting replica had led: a replica that has led for less than 2.5 s may not delete the condition of an instance that is alive and whose last heartbeat arrived (anywhere) less than 2.9 s before. With the API-backed store the API object of a condition is sometimes deleted out of band A step makes an instance unreachable for 1.05-1.9 s (one heartbeat lost, the following ones arrive again)",
 		Real: rlReal, Stub: rlStub, Assume: append([]string{"'the cleanup period' is read as the longer of the two shipped mechanisms: 3 s heartbeat timeout + 30 s sweep + 2 s", "heartbeat arrival is observed on the simulated network"}, rlAssume...),
 	})
 	reg(&Check{ID: "SMOKE", Title: "debug", Batches: []Batch{{World: "gw", Profile: "smoke", Quick: 1, Thor: 1, PerProc: 1}}})
